@@ -231,7 +231,14 @@ def op_flags(ops):
 
 
 def dec_axis(a):
+    if isinstance(a, dict):  # {"np": axis}: the same axis spelled with NumPy integers
+        v = a["np"]
+        return tuple(np.int64(i) for i in v) if isinstance(v, list) else np.int64(v)
     return tuple(a) if isinstance(a, list) else a
+
+
+def plain_axis(a):
+    return a["np"] if isinstance(a, dict) else a
 
 
 def gen_axis(rng, nd, allow_tuple=True):
@@ -260,6 +267,46 @@ def gen_axis(rng, nd, allow_tuple=True):
     return axes, fl
 
 
+# ---- array-like non-tensor arguments (conditions, masks, bounds, labels, repeat counts): the same values presented as
+# ---- an ndarray of some dtype, a nested Python list, a constant Tensor, or a Python / NumPy scalar
+
+ARG_KINDS_INT = ("int64", "uint8", "int8", "int32", "list", "tensor", "tensor-uint8")
+
+
+def enc_arg(vals, shape, kind):
+    return {"v": [int(x) if float(x) == int(x) else float(x) for x in vals], "shape": list(shape), "kind": kind}
+
+
+def dec_arg(a):
+    """-> the Python object handed to MyGrad"""
+    k = a["kind"]
+    v, sh = a["v"], a["shape"]
+    if k == "bool":
+        return np.array(v, dtype=bool).reshape(sh)
+    if k == "list-bool":
+        return np.array(v, dtype=bool).reshape(sh).tolist()
+    if k == "list":
+        return np.array(v).reshape(sh).tolist()
+    if k == "tensor-bool":
+        return mg.tensor(np.array(v, dtype=bool).reshape(sh), constant=True)
+    if k == "tensor":
+        return mg.tensor(np.array(v).reshape(sh), constant=True)
+    if k == "tensor-uint8":
+        return mg.tensor(np.array(v, dtype=np.uint8).reshape(sh), constant=True)
+    if k == "pyscalar":
+        return v[0]
+    if k == "pybool":
+        return bool(v[0])
+    if k == "npscalar":
+        return np.int64(v[0])
+    return np.array(v, dtype=np.dtype(k)).reshape(sh)
+
+
+def arg_values(a):
+    """the numerical content (float64 ndarray) — what NumPy's semantics are defined on"""
+    return np.array(a["v"], dtype=F64).reshape(a["shape"])
+
+
 # ---- index expressions (JSON <-> python)
 
 INT_DTYPES = ("int64", "int64", "int32", "int8", "uint8", "int16")
@@ -281,6 +328,16 @@ def dec_index(items, wrap=True):
             out.append(np.array(it[2], dtype=np.dtype(it[1])))
         elif k == "b":
             out.append(np.array(it[1], dtype=bool))
+        elif k == "bl":  # nested Python list of bools
+            out.append(np.array(it[1], dtype=bool).tolist())
+        elif k == "bt":  # boolean Tensor
+            out.append(mg.tensor(np.array(it[1], dtype=bool), constant=True))
+        elif k == "b0":  # 0-d boolean (adds an axis of length 0 or 1)
+            out.append(np.bool_(it[1]) if it[2] == "np" else bool(it[1]))
+        elif k == "al":  # Python list of ints
+            out.append(np.array(it[2], dtype=np.int64).tolist())
+        elif k == "at":  # integer Tensor
+            out.append(mg.tensor(np.array(it[2], dtype=np.dtype(it[1])), constant=True))
         else:
             raise ValueError(k)
     if not wrap and len(out) == 1:
@@ -304,8 +361,13 @@ def gen_index(rng, shape, small, allow_adv=True):
     if mode == "bool":
         k = rng.randint(1, nd)
         mshape = shape[:k]
-        items.append(["b", np.array([rng.random() < 0.5 for _ in range(prod_(mshape))], dtype=bool).reshape(mshape).tolist()])
+        bk = rng.choice(["b", "b", "bl", "bt"])
+        if bk == "bl" and prod_(mshape) == 0:
+            bk = "b"
+        items.append([bk, np.array([rng.random() < 0.5 for _ in range(prod_(mshape))], dtype=bool).reshape(mshape).tolist()])
         fl.add("bool-mask")
+        if bk != "b":
+            fl.add("idx=list" if bk == "bl" else "idx=tensor")
         rest = list(range(k, nd))
         if rest and rng.random() < 0.4:
             for ax in rest:
@@ -332,8 +394,15 @@ def gen_index(rng, shape, small, allow_adv=True):
             vals = [rng.randrange(lo, n) for _ in range(prod_(sh))]
             if dt in ("int8", "uint8"):
                 vals = [max(-128 if dt == "int8" else 0, v) for v in vals]
-            items.append(["a", dt, np.array(vals, dtype=np.int64).reshape(sh).tolist()])
+            ak = rng.choice(["a", "a", "a", "al", "at"])
+            if ak == "al" and (not sh or prod_(sh) == 0):
+                ak = "a"
+            if ak == "al":
+                dt = "int64"
+            items.append([ak, dt, np.array(vals, dtype=np.int64).reshape(sh).tolist()])
             fl.add("int-array")
+            if ak != "a":
+                fl.add("idx=list" if ak == "al" else "idx=tensor")
             if dt != "int64":
                 fl.add("idx-narrow-int")
             if any(v < 0 for v in vals):
@@ -351,6 +420,10 @@ def gen_index(rng, shape, small, allow_adv=True):
         if r < 0.22:
             items.append(["n"])
             fl.add("newaxis")
+            continue
+        if r < 0.25 and allow_adv:
+            items.append(["b0", rng.random() < 0.6, rng.choice(["np", "py"])])
+            fl.add("bool-0d")
             continue
         if r < 0.45 and shape[ax] > 0:
             v = rng.randrange(-shape[ax], shape[ax])
@@ -718,10 +791,29 @@ def _x_repeat(rng, shape, small):
         fl.add("repeats=list")
     if rep == 0 or rep == [0]:
         fl.add("repeats=0")
-    return {"rep": rep, "axis": ax}, fl
+    rk = "py"
+    if rng.random() < 0.35:
+        rk = rng.choice(["npscalar", "0d-array"]) if isinstance(rep, int) else rng.choice(["int64", "uint8", "int32", "tuple"])  # (a Tensor is outside the documented Union[int, Sequence[int]])
+        fl.add("repeats-kind=" + rk)
+    return {"rep": rep, "axis": ax, "rk": rk}, fl
 
 
-family("repeat", ["Repeat"], "gather", lambda p, ts: mg.repeat(ts[0], p["rep"], axis=p["axis"]), weight=1.5)(_unary_gen(_x_repeat))
+def _dec_rep(p):
+    rep, rk = p["rep"], p.get("rk", "py")
+    if rk == "py":
+        return rep
+    if rk == "npscalar":
+        return np.int64(rep)
+    if rk == "0d-array":
+        return np.array(rep)
+    if rk == "tuple":
+        return tuple(rep)
+    if rk == "tensor":
+        return mg.tensor(np.array(rep), constant=True)
+    return np.array(rep, dtype=np.dtype(rk))
+
+
+family("repeat", ["Repeat"], "gather", lambda p, ts: mg.repeat(ts[0], _dec_rep(p), axis=p["axis"]), weight=2.0)(_unary_gen(_x_repeat))
 
 
 def _bcast_pair(rng, out_shape):
@@ -729,6 +821,10 @@ def _bcast_pair(rng, out_shape):
     k = rng.randint(0, len(out_shape))
     s = out_shape[len(out_shape) - k:]
     return [1 if rng.random() < 0.3 else d for d in s]
+
+
+COND_KINDS = ("bool", "bool", "bool", "int64", "uint8", "int8", "float64", "list", "list-bool", "tensor", "tensor-bool",
+              "tensor-uint8")
 
 
 def _gen_where(rng, small):
@@ -742,8 +838,28 @@ def _gen_where(rng, small):
         sa = list(out_shape)
     else:
         sb = list(out_shape)
-    cond = [rng.random() < 0.5 for _ in range(prod_(sc))]
+    kind = rng.choice(COND_KINDS)
+    if kind.startswith("list") and prod_(sc) == 0:
+        kind = "bool"
+    if not sc and rng.random() < 0.5:
+        kind = rng.choice(["pybool", "pyscalar", "npscalar"])  # a Python / NumPy scalar condition
     fl = set()
+    truth = [rng.random() < 0.5 for _ in range(prod_(sc))]
+    if kind in ("bool", "list-bool", "tensor-bool", "pybool"):
+        vals = [int(t) for t in truth]
+    elif rng.random() < 0.5:
+        vals = [int(t) for t in truth]  # a 0/1 mask of a non-boolean type
+    else:  # arbitrary non-zero values are true
+        pool = [2, 3, 7, 255] if "uint8" in kind else [2, -1, -2, 3, 100]
+        vals = [rng.choice(pool) if t else 0 for t in truth]
+        fl.add("cond-values")
+    if kind == "float64":
+        vals = [v * 0.5 for v in vals]
+    if kind != "bool":
+        fl.add("cond=" + ("int" if kind in ("int64", "uint8", "int8", "pyscalar", "npscalar") else
+                          "float" if kind == "float64" else
+                          "list" if kind.startswith("list") else
+                          "tensor" if kind.startswith("tensor") else kind))
     if sa != out_shape or sb != out_shape:
         fl.add("bcast-operand")
     if sc != out_shape:
@@ -753,11 +869,10 @@ def _gen_where(rng, small):
     if sa == sb and rng.random() < 0.15:
         alias, ops = [0, 0], ops[:1]
         fl.add("alias")
-    return mk({"cond": [int(c) for c in cond], "cshape": sc}, ops, fl, alias)
+    return mk({"cond": {"v": vals, "shape": sc, "kind": kind}}, ops, fl, alias)
 
 
-family("where", ["Where"], "gather",
-       lambda p, ts: mg.where(np.array(p["cond"], dtype=bool).reshape(p["cshape"]), ts[0], ts[1]), weight=1.5)(_gen_where)
+family("where", ["Where"], "gather", lambda p, ts: mg.where(dec_arg(p["cond"]), ts[0], ts[1]), weight=3.0)(_gen_where)
 
 # ------------------------------------------------------------------------------------------------ engine
 
@@ -1044,6 +1159,9 @@ def _gen_reduce(allow0=True, kind="int", kw=None, keepdims=True, flt32=True):
     def gen(rng, small):
         shape = rshape(rng, small, allow0=allow0, cap=36)
         ax, fl = gen_axis(rng, len(shape))
+        if ax is not None and ax != [] and rng.random() < 0.12:
+            ax = {"np": ax}  # the same axis spelled with NumPy integers
+            fl.add("axis-kind=npint")
         kd = keepdims and rng.random() < 0.4
         if kd:
             fl.add("keepdims")
@@ -1064,6 +1182,9 @@ family("mean", ["Mean"], "linear", _red(mg.mean), weight=1.5)(_gen_reduce())
 def _gen_cum(rng, small, nozero=False, zeros=False):
     shape = rshape(rng, small, cap=24)
     ax, fl = gen_axis(rng, len(shape), allow_tuple=False)
+    if ax is not None and rng.random() < 0.12:
+        ax = {"np": ax}
+        fl.add("axis-kind=npint")
     n = prod_(shape)
     vals = ivals(rng, n, -3, 3, nozero=True)
     if zeros and n:
@@ -1077,8 +1198,8 @@ def _gen_cum(rng, small, nozero=False, zeros=False):
     return mk({"axis": ax}, [opd(rng, shape, vals=vals, small=small)], fl)
 
 
-family("cumsum", ["CumSum"], "linear", lambda p, ts: mg.cumsum(ts[0], axis=p["axis"]))(_gen_cum)
-family("cumprod", ["CumProd"], "multilinear", lambda p, ts: mg.cumprod(ts[0], axis=p["axis"]), weight=1.5)(
+family("cumsum", ["CumSum"], "linear", lambda p, ts: mg.cumsum(ts[0], axis=dec_axis(p["axis"])))(_gen_cum)
+family("cumprod", ["CumProd"], "multilinear", lambda p, ts: mg.cumprod(ts[0], axis=dec_axis(p["axis"])), weight=1.5)(
     lambda rng, small: _gen_cum(rng, small, zeros=True))
 
 
@@ -1435,16 +1556,25 @@ def _gen_ufunc_tail(rng, small):
             sb = list(out_shape)
     ms = None
     mask = None
+    mkind = "bool"
     if mode == "where+out":
         ms = _bcast_pair(rng, out_shape) if rng.random() < 0.4 else list(out_shape)
         mask = [int(rng.random() < 0.5) for _ in range(prod_(ms))]
         fl.add("where-mask")
+        mk_ = rng.choice(["bool", "bool", "list-bool", "tensor-bool", "pybool", "uint8"])
+        if mk_ == "list-bool" and prod_(ms) == 0:
+            mk_ = "bool"
+        if mk_ == "pybool":
+            ms, mask = [], mask[:1] if not ms else [int(rng.random() < 0.5)]
+        if mk_ != "bool":
+            fl.add("mask=" + mk_)
+        mkind = mk_
     if mode != "plain":
         fl.add("out=")
     ops = [opd(rng, sa, small=small, lo=-3, hi=3), opd(rng, sb, small=small, lo=-3, hi=3)]
     if mode != "plain":
         ops.append(opd(rng, out_shape, small=small, lo=-3, hi=3))
-    return mk({"f": rng.choice(sorted(UFUNC_TAIL)), "mode": mode, "mask": mask, "mshape": ms}, ops, fl)
+    return mk({"f": rng.choice(sorted(UFUNC_TAIL)), "mode": mode, "mask": mask, "mshape": ms, "mkind": mkind}, ops, fl)
 
 
 def _call_ufunc_tail(p, ts):
@@ -1455,7 +1585,7 @@ def _call_ufunc_tail(p, ts):
     if p["mode"] == "out":
         f(ts[0], ts[1], out=z)
     else:
-        f(ts[0], ts[1], out=z, where=np.array(p["mask"], dtype=bool).reshape(p["mshape"]))
+        f(ts[0], ts[1], out=z, where=dec_arg({"v": p["mask"], "shape": p["mshape"], "kind": p.get("mkind", "bool")}))
     return z
 
 
@@ -1585,12 +1715,20 @@ def _gen_clip(rng, small):
         if k == "none":
             P[nm] = None
         elif k == "scalar":
-            P[nm] = {"k": "scalar", "v": rng.randint(-3, 1) if nm == "amin" else rng.randint(0, 3)}
+            sk = rng.choice(["py", "py", "float", "npscalar", "0d-array"])
+            P[nm] = {"k": "scalar", "v": rng.randint(-3, 1) if nm == "amin" else rng.randint(0, 3), "sk": sk}
+            if sk != "py":
+                fl.add("bound-kind=" + sk)
         else:
             sh = _bcast_pair(rng, shape) if rng.random() < 0.5 else list(shape)
             vals = ivals(rng, prod_(sh), -3, 1) if nm == "amin" else ivals(rng, prod_(sh), 0, 3)
             if k == "array":
-                P[nm] = {"k": "array", "v": vals, "shape": sh}
+                ak = rng.choice(["float64", "float64", "int64", "int8", "list", "tensor", "float32"])
+                if ak == "list" and prod_(sh) == 0:
+                    ak = "float64"
+                P[nm] = {"k": "array", "v": vals, "shape": sh, "ak": ak}
+                if ak != "float64":
+                    fl.add("bound-kind=" + ak)
             else:
                 P[nm] = {"k": "tensor", "slot": len(ops)}
                 ops.append(opd(rng, sh, vals=vals, small=small))
@@ -1615,9 +1753,25 @@ def _clip_bounds(p, slots):
     return out
 
 
+def _clip_arg(b, slots):
+    """the object handed to mg.clip (the oracle works on `_clip_bounds`, i.e. on the numerical values)"""
+    if b is None:
+        return None
+    if b["k"] == "scalar":
+        sk = b.get("sk", "py")
+        return {"py": b["v"], "float": float(b["v"]), "npscalar": np.int64(b["v"]), "0d-array": np.array(b["v"])}[sk]
+    if b["k"] == "array":
+        ak = b.get("ak", "float64")
+        if ak == "list":
+            return np.array(b["v"]).reshape(b["shape"]).tolist()
+        if ak == "tensor":
+            return mg.tensor(np.array(b["v"]).reshape(b["shape"]), constant=True)
+        return np.array(b["v"], dtype=np.dtype(ak)).reshape(b["shape"])
+    return slots[b["slot"]]
+
+
 def _call_clip(p, ts):
-    lo, hi = _clip_bounds(p, ts)
-    return mg.clip(ts[0], lo, hi)
+    return mg.clip(ts[0], _clip_arg(p["amin"], ts), _clip_arg(p["amax"], ts))
 
 
 def _oracle_clip(case, sv, out, g):
@@ -1747,11 +1901,20 @@ def _gen_xy(rng, small, probs=False):
 
 def _gen_sce(rng, small):
     x, y, N, C = _gen_xy(rng, small)
-    return mk({"y": y, "ydt": rng.choice(["int64", "int32", "uint8"])}, [x], set())
+    ydt = rng.choice(Y_KINDS)
+    return mk({"y": y, "ydt": ydt}, [x], {"labels=" + ydt} if ydt != "int64" else set())
 
 
 def _y(p):
-    return np.array(p["y"], dtype=np.dtype(p.get("ydt", "int64")))
+    dt = p.get("ydt", "int64")
+    if dt == "list":
+        return [int(v) for v in p["y"]]
+    if dt == "tensor":
+        return mg.tensor(np.array(p["y"]), constant=True)
+    return np.array(p["y"], dtype=np.dtype(dt))
+
+
+Y_KINDS = ("int64", "int64", "int32", "uint8", "int8", "list", "tensor")
 
 
 family("softmax_crossentropy", ["SoftmaxCrossEntropy"], "numeric", lambda p, ts: nn.softmax_crossentropy(ts[0], _y(p)), exact=False)(_gen_sce)
@@ -1766,11 +1929,26 @@ def _gen_hinge(rng, small):
         M[range(N), y] = 1.0
         if np.abs(M).min() < 0.02:
             continue
-        return mk({"y": y, "hinge": hinge}, [x], {"hinge"} if hinge != 1.0 else set())
+        ydt = rng.choice(Y_KINDS)
+        return mk({"y": y, "hinge": hinge, "ydt": ydt}, [x],
+                  ({"hinge"} if hinge != 1.0 else set()) | ({"labels=" + ydt} if ydt != "int64" else set()))
     raise RuntimeError
 
 
 family("multiclass_hinge", ["MulticlassHinge"], "numeric", lambda p, ts: nn.multiclass_hinge(ts[0], _y(p), hinge=p["hinge"]), exact=False)(_gen_hinge)
+
+
+def _dec_my(p):
+    yk = p.get("yk", "array")
+    if yk == "list":
+        return p["y"]
+    if yk == "int8":
+        return np.array(p["y"], dtype=np.int8)
+    if yk == "float":
+        return np.array(p["y"], dtype=float)
+    if yk == "tensor":
+        return mg.tensor(np.array(p["y"]), constant=True)
+    return np.array(p["y"])
 
 
 def _gen_margin(rng, small):
@@ -1789,12 +1967,14 @@ def _gen_margin(rng, small):
         M = margin - yy * (np.array(x1["vals"]).reshape(shape) - np.array(x2["vals"]).reshape(shape))
         if np.abs(M).min() < 0.02:
             continue
-        return mk({"y": y, "margin": margin}, [x1, x2], {"y-scalar"} if ysc else set())
+        yk = rng.choice(["array", "array", "list", "int8", "float", "tensor"])
+        return mk({"y": y, "margin": margin, "yk": yk}, [x1, x2],
+                  ({"y-scalar"} if ysc else set()) | ({"y=" + yk} if yk != "array" else set()))
     raise RuntimeError
 
 
 family("margin_ranking_loss", ["MarginRanking"], "numeric",
-       lambda p, ts: nn.margin_ranking_loss(ts[0], ts[1], np.array(p["y"]), p["margin"]), exact=False)(_gen_margin)
+       lambda p, ts: nn.margin_ranking_loss(ts[0], ts[1], _dec_my(p), p["margin"]), exact=False)(_gen_margin)
 
 
 def _gen_focal(soft):
@@ -1802,7 +1982,9 @@ def _gen_focal(soft):
         x, y, N, C = _gen_xy(rng, small, probs=not soft)
         alpha = rng.choice([1, 0.5, 2.0])
         gamma = rng.choice([0, 0, 1, 0.5, 2, 3.5])
-        return mk({"y": y, "alpha": alpha, "gamma": gamma}, [x], {f"gamma={gamma}"})
+        ydt = rng.choice(Y_KINDS)
+        return mk({"y": y, "alpha": alpha, "gamma": gamma, "ydt": ydt}, [x],
+                  {f"gamma={gamma}"} | ({"labels=" + ydt} if ydt != "int64" else set()))
 
     return gen
 
@@ -1815,7 +1997,8 @@ family("softmax_focal_loss", ["FocalLoss", "Softmax"], "numeric",
 def _gen_nll(rng, small):
     x, y, N, C = _gen_xy(rng, small)
     w = None if rng.random() < 0.5 else [round(rng.uniform(0.2, 2), 2) for _ in range(C)]
-    return mk({"y": y, "w": w}, [x], {"weights"} if w else set())
+    ydt = rng.choice(Y_KINDS)
+    return mk({"y": y, "w": w, "ydt": ydt}, [x], ({"weights"} if w else set()) | ({"labels=" + ydt} if ydt != "int64" else set()))
 
 
 family("negative_log_likelihood", ["GetItem", "Mean"], "numeric",
@@ -1944,9 +2127,10 @@ def lean_extra(fam, case, grads, g, err):
                 out.append([f"lin setitem 1 {n} {ints(lab)} {ints(g)}", f"a={ints(grads[0])} b={ints(grads[1])}"])
         elif name == "cumsum" and (len(case["ops"][0]["shape"]) == 1 or p["axis"] is None) and 0 < g.size <= LEAN_MAX_N:
             out.append([f"lin rcumsum {ints(g)}", ints(grads[0])])
-        elif name == "where" and case["alias"] == [0, 1] and case["ops"][0]["shape"] == case["ops"][1]["shape"] == p["cshape"] \
-                and 0 < g.size <= LEAN_MAX_N:
-            out.append([f"lin mask {ints(p['cond'])} {ints(g)}", f"t={ints(grads[0])} f={ints(grads[1])}"])
+        elif name == "where" and case["alias"] == [0, 1] \
+                and case["ops"][0]["shape"] == case["ops"][1]["shape"] == p["cond"]["shape"] and 0 < g.size <= LEAN_MAX_N:
+            truth = (arg_values(p["cond"]) != 0).astype(int)  # NumPy's truthiness is the semantics of the forward pass
+            out.append([f"lin mask {ints(truth)} {ints(g)}", f"t={ints(grads[0])} f={ints(grads[1])}"])
         elif name == "transpose" and p["axes"] is not None and len(p["axes"]) > 1:
             x = mg.tensor(make_array(case["ops"][0]).astype(F64))
             o = _call_transpose(p, [x])
@@ -2149,6 +2333,8 @@ def simplify(fam, case, operand, failkind):
         if "axis" not in p or p["axis"] is None or nd == 0:
             return False
         a = p["axis"]
+        if isinstance(a, dict):
+            return False
         if isinstance(a, list):
             if not any(isinstance(i, int) and i < 0 for i in a):
                 return False
@@ -2166,6 +2352,13 @@ def simplify(fam, case, operand, failkind):
             return True
         return False
 
+    def e_npaxis(c):
+        if isinstance(c["params"].get("axis"), dict):
+            c["params"]["axis"] = c["params"]["axis"]["np"]
+            return True
+        return False
+
+    attempt(e_npaxis, ["axis-kind=npint"])
     attempt(e_layout, ["noncontig"])
     attempt(e_dtype, ["f32"])
     attempt(e_axis, ["axis=neg"])
